@@ -413,12 +413,17 @@ class MinMaxAggregator:
         lits_without_vars = []
         rest_vars: set[AST] = set()  # variable names that are used in- but also outside of the aggregate
         inside_variables = set(chain(*map(lambda x: collect_ast(x, "Variable"), agg.atom.elements)))
+        inside_variables.discard(Variable(LOC, "_"))  # every anonymous variable is a different one
         for blit in rule.body:
             if blit == agg:
                 continue
             blit_vars = set(collect_ast(blit, "Variable"))
-            if blit.ast_type == ASTType.Literal and blit.atom.ast_type in (ASTType.BodyAggregate, ASTType.Aggregate):
-                blit_vars = global_vars_inside_body([blit])  # the local variables of another aggregate stay local
+            if blit.ast_type == ASTType.ConditionalLiteral or (
+                blit.ast_type == ASTType.Literal and blit.atom.ast_type in (ASTType.BodyAggregate, ASTType.Aggregate)
+            ):
+                # the local variables of another aggregate or of a conditional literal stay local
+                blit_vars = global_vars_inside_body([blit])
+            blit_vars.discard(Variable(LOC, "_"))
             if len(blit_vars.intersection(inside_variables)) != 0:
                 rest_vars.update(blit_vars)
                 lits_with_vars.append(blit)
